@@ -16,6 +16,7 @@ def getFieldByName (s : Schema) (fieldIds : List Nat) (name : String) : Outcome 
 def createRoots (s : Schema) : QDoc → Query → Outcome Query
   | [], q => pure q
   | .frag name on _ :: rest, q =>
+    if (q.findFragment name).isSome then fail' s!"There can be only one fragment named `{name}`." else
     match s.findType on with
     | none => fail' s!"Could not find type {on} for fragment {name} in schema."
     | some t => createRoots s rest { q with fragments := q.fragments ++ [{ name := name, on := t, sels := [] }] }
@@ -25,12 +26,16 @@ def createRoots (s : Schema) : QDoc → Query → Outcome Query
     | some on =>
       match name with
       | none => panic' "mutation without name"
-      | some n => createRoots s rest { q with operations := q.operations ++ [{ name := n, kind := .mutation, objectId := on, sels := [] }] }
+      | some n =>
+        if (q.findOperation n).isSome then fail' s!"There can be only one operation named `{n}`." else
+        createRoots s rest { q with operations := q.operations ++ [{ name := n, kind := .mutation, objectId := on, sels := [] }] }
   | .op .query name _ _ :: rest, q => do
     let on ← s.queryTypeOrPanic
     match name with
     | none => panic' "query without name"
-    | some n => createRoots s rest { q with operations := q.operations ++ [{ name := n, kind := .query, objectId := on, sels := [] }] }
+    | some n =>
+      if (q.findOperation n).isSome then fail' s!"There can be only one operation named `{n}`." else
+      createRoots s rest { q with operations := q.operations ++ [{ name := n, kind := .query, objectId := on, sels := [] }] }
   | .op .subscription name _ sels :: rest, q =>
     match s.subscriptionType with
     | none => fail' "Query contains a subscription operation, but the schema has no subscription type."
@@ -38,7 +43,9 @@ def createRoots (s : Schema) : QDoc → Query → Outcome Query
       if sels.length != 1 then fail' "Multiple-field queries on the root subscription field are forbidden by the spec."
       else match name with
       | none => panic' "subscription without name"
-      | some n => createRoots s rest { q with operations := q.operations ++ [{ name := n, kind := .subscription, objectId := on, sels := [] }] }
+      | some n =>
+        if (q.findOperation n).isSome then fail' s!"There can be only one operation named `{n}`." else
+        createRoots s rest { q with operations := q.operations ++ [{ name := n, kind := .subscription, objectId := on, sels := [] }] }
   | .selset _ :: _, _ => fail' "Operations in queries must be named."
 
 mutual
